@@ -6,9 +6,13 @@
    check_type verdicts (B1).
 2. `values c13-bytes` executes the corpus against the real Value API (from_scalar, from_flattened_array,
    from_flattened_array_u64, to_u8..to_i128, to_flattened_array_*, check_type, TypedValue::new) and adds
-   arrays / raw byte strings chosen by a seeded generator; `values c13-json` round-trips TypedValues of a
-   type grammar of depth <= 3 through serde_json (B2).
-3. TLC on spec/CodecTrace.tla judges every record (it recomputes all expectations from the inputs).
+   arrays / raw byte strings chosen by a seeded generator; `valjson` writes TypedValues through serde_json and
+   reads them back (B2): every type of the "jt" case family of the corpus (arrays of all 11 scalar types over
+   all shapes of rank <= 3 -- square or not -- and rank 4 samples, containers of depth <= 3 over non-square
+   arrays) and a seeded random type grammar of depth <= 3; the text is also tokenized by a generic JSON reader.
+3. TLC on spec/CodecTrace.tla judges every record (it recomputes all expectations from the inputs): for the
+   JSON half the type and the numeric content read back, `==`, and the text itself against Codec!JToks / JNums
+   (kinds, type names, names, the row-major nesting of the array shape, every number with its sign).
 """
 import json, os, re
 from . import lib
@@ -66,6 +70,8 @@ def _sig(rec, facets):
     if k == "js":
         s["type_kind"] = _tname(rec["t"])
         s["st"] = rec["t"].get("st", "")
+        if rec["t"]["k"] == "a":
+            s["rank"] = len(rec["t"]["sh"])
     return s
 
 
@@ -75,7 +81,7 @@ def _int_of(z):
 
 
 def _replay(rec, facets):
-    r = {k: v for k, v in rec.items() if k not in ("rd", "rda")}
+    r = {k: v for k, v in rec.items() if k not in ("rd", "rda", "vl", "nums")}
     if rec["kind"] == "sc":
         r["integer"] = str(_int_of(rec["z"]))
         r["how"] = ("Value::from_scalar(%s, %s) / Value::from_flattened_array_u64(&[%s], %s); compare access_bytes with the "
@@ -87,21 +93,22 @@ def _replay(rec, facets):
 def run(chk):
     tier = chk.tier
     # 1. codec laws + corpus
-    r1 = lib.tlc("Codec", "MC_Codec.cfg", workers=4, timeout=900)
+    r1 = lib.tlc("Codec", "MC_Codec.cfg", env={"C13_TIER": tier}, workers=4, timeout=900)
     chk.add_tlc(r1, "Codec")
     if not r1.ok:
         raise lib.ToolError("the codec laws fail inside the specification itself: " + r1.trace[:1500])
     cases = lib.printed_json(r1, "CASE")
     if len(cases) != r1.distinct:
         raise lib.ToolError("corpus incomplete: %d printed, %d states" % (len(cases), r1.distinct))
-    lib.write_ndjson(chk.path("cases.ndjson"), cases)
+    lib.write_ndjson(chk.path("cases.ndjson"), [c for c in cases if c["kind"] != "jt"])
+    lib.write_ndjson(chk.path("jtcases.ndjson"), [c for c in cases if c["kind"] == "jt"])
     kinds = {}
     for c in cases:
         kinds[c["kind"]] = kinds.get(c["kind"], 0) + 1
     chk.note("corpus_cases", kinds)
     # 2. the real code
     lib.harness(["c13-bytes", chk.path("cases.ndjson"), chk.path("bytes.ndjson"), chk.seed], binary="values")
-    lib.harness(["c13-json", chk.path("json.ndjson"), chk.seed, 40 if tier == "quick" else 400], binary="values")
+    lib.harness([chk.path("json.ndjson"), chk.seed, 40 if tier == "quick" else 400, chk.path("jtcases.ndjson")], binary="valjson")
     recs = lib.read_ndjson(chk.path("bytes.ndjson")) + lib.read_ndjson(chk.path("json.ndjson"))
     n_exec = {}
     for r in recs:
@@ -109,6 +116,12 @@ def run(chk):
     chk.note("records_from_code", n_exec)
     if n_exec.get("sc", 0) != kinds.get("sc") or n_exec.get("ct", 0) != kinds.get("ct") or n_exec.get("ba", 0) != kinds.get("ba"):
         raise lib.ToolError("harness did not execute the whole corpus")
+    jt_done = {json.dumps(r["t"], sort_keys=True) for r in recs if r["kind"] == "js" and r.get("src") == "jt"}
+    if jt_done != {json.dumps(c["t"], sort_keys=True) for c in cases if c["kind"] == "jt"}:
+        raise lib.ToolError("harness did not execute the whole JSON type family")
+    shapes = {tuple(c["t"]["sh"]) for c in cases if c["kind"] == "jt" and c["t"]["k"] == "a"}
+    chk.note("json_array_shapes", {"count": len(shapes), "ranks": sorted({len(x) for x in shapes}),
+                                   "non_square": len([x for x in shapes if len(set(x)) > 1])})
     # 3. TLC judges
     res, bad = judge(chk, "CodecTrace", "MC_CodecTrace.cfg", recs, "trace.ndjson", _sig, _replay,
                      timeout=1500 if tier == "quick" else 6000)
@@ -120,14 +133,18 @@ def run(chk):
         chk.sample({"st": c["st"], "integer": str(_int_of({"neg": c["neg"], "mag": c["mag"]})), "predicted_bytes": c["bytes"]})
     for c in [c for c in cases if c["kind"] == "ba" and len(c["bits"]) == 9][:1]:
         chk.sample({"bits": c["bits"], "predicted_bytes": c["bytes"]})
-    for r in [r for r in recs if r["kind"] == "js" and r.get("txt")][5:7]:
+    for r in [r for r in recs if r["kind"] == "js" and r.get("txt") and r.get("src") == "rnd"][5:6]:
         chk.sample({"json": r["txt"], "type": r["t"], "value": r["v"], "equal_after_round_trip": r["eq"]})
+    for r in [r for r in recs if r["kind"] == "js" and r.get("txt") and r["t"].get("sh") == [3, 1, 2] and r.get("style") == 4][1:2]:
+        chk.sample({"json": r["txt"], "type": r["t"], "tokens": " ".join(r["toks"]), "equal_after_round_trip": r["eq"]})
     chk.note("binding_demonstrated", "trace corruption and a code mutation in a scratch copy (vec_u128_from_bytes: no sign extension for 64-bit types) were rejected by CodecTrace (scalar_readers/array_readers), 2026-09-23")
     chk.exhaustive = False
     chk.assumptions += [
         "TLC cannot parse JSON text: for the JSON half what is decided is that the typed value read back from the "
         "serde_json text has the same type and the same numeric content (compared as trees of decimal strings) and "
-        "is `==` to the original; the concrete syntax is not checked",
+        "is `==` to the original, and that the token sequence a generic JSON reader (serde_json::Value, keys sorted) "
+        "makes of the text is the one the specification states (Codec!JToks, JNums); white space and key order of "
+        "the concrete syntax are not checked",
         "integers handed to the API range over -2^127 .. 2^128-1 (i128 / u128 arguments); all residues for w <= 8, "
         "boundary values for every width",
         "empty vectors are only round-tripped with the element type the deserializer documents (vector(0, tuple()))",
